@@ -151,7 +151,7 @@ fn dec_layer(b: &[u8]) -> Result<CLayer, String> {
 						(3, 0) => gt = fr.varint()?,
 						(4, 2) => {
 							let n = fr.varint()? as usize;
-							geom = fr.take(n)?.to_vec();
+							geom.extend_from_slice(fr.take(n)?);
 						}
 						(_, w) => skip(&mut fr, w)?,
 					}
@@ -238,6 +238,24 @@ pub struct EncOpts {
 	pub unused_entries: bool,
 	/// write the version field first (as most foreign encoders do) and the default extent explicitly
 	pub foreign_field_order: bool,
+	/// write the packed repeated fields of a feature (tags, geometry) in two chunks: "a packed repeated field may
+	/// appear more than once; the payloads are concatenated" (protobuf encoding rules) — what an encoder emits
+	/// that appends to a feature it has already started
+	pub split_packed: bool,
+}
+
+/// position of a varint boundary near the middle of a packed payload (0: none)
+fn varint_boundary(b: &[u8]) -> usize {
+	let mut ends = vec![];
+	for (i, x) in b.iter().enumerate() {
+		if x & 0x80 == 0 {
+			ends.push(i + 1);
+		}
+	}
+	if ends.len() < 2 {
+		return 0;
+	}
+	ends[ends.len() / 2 - 1]
 }
 
 fn put_key(out: &mut Vec<u8>, field: u64, wire: u8) {
@@ -325,12 +343,24 @@ pub fn encode_layer(l: &WLayer, o: &EncOpts, rng: &mut Rng) -> Vec<u8> {
 			for t in &tags {
 				put_varint(&mut tb, *t as u64);
 			}
-			put_bytes(&mut fb, 2, &tb);
+			let at = if o.split_packed && tags.len() >= 4 { varint_boundary(&tb) } else { 0 };
+			if at > 0 {
+				put_bytes(&mut fb, 2, &tb[..at]);
+				put_bytes(&mut fb, 2, &tb[at..]);
+			} else {
+				put_bytes(&mut fb, 2, &tb);
+			}
 		}
 		put_key(&mut fb, 3, 0);
 		put_varint(&mut fb, f.gtype);
 		if !f.geom.is_empty() {
-			put_bytes(&mut fb, 4, &f.geom);
+			let at = if o.split_packed { varint_boundary(&f.geom) } else { 0 };
+			if at > 0 {
+				put_bytes(&mut fb, 4, &f.geom[..at]);
+				put_bytes(&mut fb, 4, &f.geom[at..]);
+			} else {
+				put_bytes(&mut fb, 4, &f.geom);
+			}
 		}
 		feats.push(fb);
 	}
@@ -439,9 +469,11 @@ pub fn gen_value(rng: &mut Rng, extreme: bool) -> WVal {
 		1 => WVal::Str(format!("v{}", rng.below(50))),
 		2 => WVal::F32(*rng.pick(&[0.0f32, -0.0, 1.5, -3.25e10, f32::MIN_POSITIVE, f32::MAX])),
 		3 => WVal::F64(*rng.pick(&[0.0f64, -0.0, 2.5, 1e-300, -1.7976931348623157e308, 3.141592653589793])),
-		4 => WVal::Int64(if extreme { *rng.pick(&[i64::MIN, i64::MAX, -1, 1 << 62, -(1 << 62)]) } else { rng.range_i(-1000, 1000) }),
-		5 => WVal::UInt64(if extreme { *rng.pick(&[u64::MAX, 1 << 63, (1 << 63) - 1, 1 << 62]) } else { rng.below(100_000) }),
-		6 => WVal::SInt64(if extreme { *rng.pick(&[i64::MIN, i64::MAX, -(1 << 62), (1 << 62) + 1, -(1 << 62) - 1]) } else { rng.range_i(-1000, 1000) }),
+		// (extreme: the ends of the 64-bit range and the neighbourhood of every narrower integer width — Unix time
+		// stamps, populations, 32-bit hashes live there)
+		4 => WVal::Int64(if extreme { *rng.pick(&[i64::MIN, i64::MAX, -1, 1 << 62, -(1 << 62), 1 << 30, (1 << 31) - 1, 1 << 31, -(1 << 30) - 1, -(1 << 31), 1_700_000_000, -1_500_000_000, 1 << 32, (1 << 15) - 1, -(1 << 15), 1 << 53]) } else { rng.range_i(-1000, 1000) }),
+		5 => WVal::UInt64(if extreme { *rng.pick(&[u64::MAX, 1 << 63, (1 << 63) - 1, 1 << 62, 1 << 31, (1 << 32) - 1, 1 << 32, 3_000_000_000, 1 << 16, (1 << 53) + 1]) } else { rng.below(100_000) }),
+		6 => WVal::SInt64(if extreme { *rng.pick(&[i64::MIN, i64::MAX, -(1 << 62), (1 << 62) + 1, -(1 << 62) - 1, 1 << 30, (1 << 30) - 1, (1 << 31) - 1, 1 << 31, -(1 << 30), -(1 << 30) - 1, -(1 << 31), -(1 << 31) - 1, 1_700_000_000, -2_000_000_000]) } else { rng.range_i(-1000, 1000) }),
 		7 => WVal::Bool(rng.bool()),
 		_ => WVal::UInt64(rng.below(20)),
 	}
@@ -464,7 +496,7 @@ pub struct GenOpts {
 
 impl Default for GenOpts {
 	fn default() -> Self {
-		GenOpts { layer_names: vec!["roads".into(), "water".into(), "places".into(), "land use".into(), "ünï".into()], max_layers: 4, max_features: 6, extreme_values: true, unknown_geom: true, id_field: None, big_ids: true, wide_tables: 0.0 }
+		GenOpts { layer_names: vec!["roads".into(), "water".into(), "places".into(), "land use".into(), "ünï".into(), "".into()], max_layers: 4, max_features: 6, extreme_values: true, unknown_geom: true, id_field: None, big_ids: true, wide_tables: 0.0 }
 	}
 }
 
